@@ -58,6 +58,9 @@ CHECKS = {
     "C34": C("c34", dict(checks=5000, shards=2, timeout=300), dict(checks=50000, shards=16, timeout=3000),
              "property-based testing (rapid): differential against two recursive reference implementations plus validity predicates (first/last kept, subsequence)",
              "Trusted: the two recursive references (the repository's own via hook VerifReferenceDouglasPeuckerSimplify, and one in the harness using the same tie and split conventions). Finite coordinates, non-negative tolerance, at least 2 points."),
+    "C37": C("c37", dict(checks=250, shards=4, timeout=900), dict(checks=4000, shards=16, timeout=6000),
+             "property-based testing (rapid): generated sources and edit histories containing invalid features; oracle: independent validity predicate over every feature enumerated from the resulting world",
+             "Trusted: the validity rules written in harness/c37 (transcribed from the property statement) and s2's loop validation."),
     "C39": C("c39", dict(checks=5000, shards=2, timeout=300), dict(checks=100000, shards=16, timeout=1800),
              "property-based testing (rapid): generated operation sequences on b6.Tags compared step by step with an ordered-list reference model; shrunk failing case saved as JSON replay",
              "Trusted: the ordered-list model in harness/c39; keys are distinct and non-empty as the property states; values are string expressions."),
